@@ -77,6 +77,7 @@ type FnCtx struct {
 	factSeen map[string]bool
 	ghosts   map[string]Val // ghost parameters of the function under verification
 	closureAx  map[string]bool
+	pathCovers []*Obligation
 	noNaming   int // >0: do not introduce named constants for intermediate terms (bodies run on bound variables)
 }
 
